@@ -563,7 +563,10 @@ pub fn run_property<P: Property>(p: &P, ctx: &Ctx) -> i32 {
 
     // 2. regress replays (normal mode) ---------------------------------------------------------
     let rdir = Path::new(VERIF_ROOT).join("regress").join(id);
-    if let Ok(rd) = std::fs::read_dir(&rdir) {
+    // VERIF_NO_REGRESS=1 (used by tools/seed_sweep.sh): skip the saved replays, so that the sweep
+    // measures what the generators find on their own
+    let skip_regress = std::env::var("VERIF_NO_REGRESS").map(|v| v == "1").unwrap_or(false);
+    if let (false, Ok(rd)) = (skip_regress, std::fs::read_dir(&rdir)) {
         let mut files: Vec<PathBuf> = rd
             .filter_map(|e| e.ok().map(|e| e.path()))
             .filter(|p| p.extension().map(|e| e == "json").unwrap_or(false))
